@@ -16,13 +16,14 @@ CFG = dict(
     technique="Lean 4 proof (inductive invariants over event lists; regression / refutation witnesses by `decide`) + regenerated constants / literal-operator lists / call-site and "
               "statement-presence facts + differential run of the real handlers against the model + implementation-side oracle",
     lean=["Ssv.Props.C16"],
-    engines=[dict(harness="duties", driver="m_duties", case_delim="reset", n_quick=1500, n_thorough=40000, thorough_seeds=4, n_search=6000, search_seeds=4)],
+    engines=[dict(harness="duties", driver="m_duties", case_delim="reset", n_quick=1000, n_thorough=12000, thorough_seeds=4, n_search=6000, search_seeds=4)],
     rule="seeded generator: handler kind (att 45% / prop 20% / sync 35%), network (real 32/256 near epoch and sync-period boundaries, or small spe in {4,6,8,16} x epp in {2,3,4,8}), "
          "40-160 ticks per case with skipped slots, clock skew (-1, +1, +spe+2), reorg(previous|current|both) and indices-change notices before/after ticks (boosted after the last "
-         "slot of an epoch; 1% handled one tick late; 1% carrying a slot later than the next tick), per-fetch outcome ok (assignments change at every re-fetch: validators move "
-         "between slots, fresh content tags) / fail / no-active-indices in three failure regimes; each event is applied to the real handler and to the Lean model; "
+         "slot of an epoch; 1% handled one tick late; 1% carrying a slot later than the next tick), scripted registries (own/foreign, liquidated, attesting / pending-queued / exited / slashed / unknown / no metadata, random order, changing before indices-change notices), per-fetch beacon answer ok (assignments change at every re-fetch: validators move "
+         "between slots, fresh content tags) / fail in several failure regimes (no-active-indices comes from the real index functions); each event is applied to the real handler and to the Lean model; "
          "distinct+non-trivial = (handler, network mode, event kind, sequence of fetch outcomes and non-empty dispatch)",
-    trusted_base=["mock slot ticker / wall clock / beacon node / validator controller of the harness; barrier = a ReorgEvent{Previous:false,Current:false} passing through the handler's select loop",
+    trusted_base=["the validator controller is the REAL one (AllActiveIndices / CommitteeActiveIndices over a real shares store + validators map, verif shim harness/inpkg/operator/validator); the shim decides which shares have a running validator as StartValidators/onShareStop do (own, not liquidated)",
+                  "mock slot ticker / wall clock / beacon node of the harness (the beacon mock answers for the requested indices only); barrier = a ReorgEvent{Previous:false,Current:false} passing through the handler's select loop",
                   "in small-network cases the slot/epoch/period arithmetic of the mocked BeaconNetwork mirrors beacon.Network with the two parameters replaced (real-network cases use the real beacon.Network)",
                   "the oracle's reading of 'fetched successfully': the most recent SUCCESSFUL assignment of the epoch/period stays owed across later failed fetches, unless a reorg / indices-change notice declared it out of date and the re-fetch of that epoch/period failed (the Lean monitor is weaker: any failed fetch voids the obligations until the next success)"],
     assumptions=["the slot ticker delivers strictly increasing slots (real slotticker: `nextSlot <= s.slot` guard)",
